@@ -520,7 +520,15 @@ func (s *stdioTransport) processMessage(ctx context.Context, line string, writer
 func (s *stdioTransport) writeResponse(response interface{}, writer io.Writer) error {
 	data, err := json.Marshal(response)
 	if err != nil {
-		return fmt.Errorf("error marshaling response: %w", err)
+		switch response.(type) {
+		case JSONRPCResponse, *JSONRPCResponse, JSONRPCError, *JSONRPCError:
+			// The answer to a request cannot be encoded (a handler's result, for instance): answer
+			// with an internal error instead of leaving the request without any answer.
+			data, err = json.Marshal(newEncodingFailureResponse(response, err))
+		}
+		if err != nil {
+			return fmt.Errorf("error marshaling response: %w", err)
+		}
 	}
 
 	// One frame at a time: the line and its terminator must not interleave with another writer's.
